@@ -97,7 +97,7 @@ func overlayFiles(s *Spec, dir string, native bool) (map[string]string, error) {
 	}
 	ov[filepath.Join(repoDir, "zzverif/vf", vf)] = filepath.Join(verifDir, "harness/vf", vf)
 	for _, f := range s.Files {
-		ov[filepath.Join(repoDir, s.Dir, "zz_verif_"+f)] = filepath.Join(dir, f)
+		ov[filepath.Join(repoDir, s.Dir, "zz_verif_"+filepath.Base(f))] = filepath.Join(dir, f)
 	}
 	for target, f := range s.ExtraOverlay {
 		ov[filepath.Join(repoDir, target)] = filepath.Join(dir, f)
